@@ -5,7 +5,9 @@ import (
 	"encoding/json"
 	"fmt"
 	"math"
+	"strconv"
 	"strings"
+	"time"
 
 	"github.com/shopspring/decimal"
 	"google.golang.org/protobuf/proto"
@@ -322,6 +324,22 @@ func (er *encRun) roundTrip(stream string, t *target, m protoreflect.Message, fl
 		res.Fail(vh.Failure{Case: caseNo, Stream: stream, Sig: "C01 encoding a representable message fails", Clause: "encoding a representable message succeeds", Input: in, Got: o.Err})
 		return
 	}
+	// model case: default codec both ways
+	{
+		facts := factsOf(m)
+		mb := t.New()
+		derr, dpan := decodeMsg(theCodec, o.Out, mb)
+		backTerm := "None"
+		if dpan == nil && derr == nil {
+			backTerm = "(Some " + msgTermCanon(mb) + ")"
+		}
+		if dpan == nil {
+			pf, pt := literalTables(o.Out)
+			er.em.cf.Terms = append(er.em.cf.Terms, fmt.Sprintf("CRound %s %s %s %s %s %s %s %s %s %s", t.Name, codecgen.BytesTerm(t.Env.Root), msgTerm(m),
+				facts.floatsTerm(), facts.innersTerm(), pf, pt, vh.BoolTerm(facts.maxMap <= 1), codecgen.BytesTerm(string(o.Out)), backTerm))
+			res.Cases = append(res.Cases, vh.CaseRec{Case: caseNo, Stream: stream, Input: in, Impl: map[string]any{"out": short(o.Out), "decode_err": fmt.Sprint(derr)}})
+		}
+	}
 	c := theCodec
 	if hasPBAny(m) {
 		c = anyCodec
@@ -344,8 +362,8 @@ func (er *encRun) roundTrip(stream string, t *target, m protoreflect.Message, fl
 		res.Fail(vh.Failure{Case: caseNo, Stream: stream, Sig: "C01 decoder rejects encoder output (" + cls + ")", Clause: "decoding the encoding succeeds", Input: in, Got: err.Error() + " on " + short(o.Out)})
 		return
 	}
-	a := proto.Clone(m.Interface()).ProtoReflect()
-	b := proto.Clone(back.Interface()).ProtoReflect()
+	a := cloneMsg(m)
+	b := cloneMsg(back)
 	dropEmptyFlattened(a, flat)
 	dropEmptyFlattened(b, flat)
 	if d := equalModulo(a, b, "$"); d != "" {
@@ -404,4 +422,218 @@ func runC01(cfg *vh.Config) error {
 	res.Distinct = len(er.distinct) - 1
 	_ = json.Valid
 	return em.finish(cfg)
+}
+
+// msgTermCanon: like msgTerm, with the j5_json of a j5 Any re-printed canonically (the decoder
+// stores json.Compact of the value text; the model stores the compact print of the value tree)
+func msgTermCanon(m protoreflect.Message) string {
+	c := cloneMsg(m)
+	canonAny(c)
+	return msgTerm(c)
+}
+
+// cloneMsg copies field by field (proto.Clone / Merge drop a negative zero held by an
+// implicit-presence float field)
+func cloneMsg(m protoreflect.Message) protoreflect.Message {
+	c := m.New()
+	m.Range(func(fd protoreflect.FieldDescriptor, v protoreflect.Value) bool {
+		switch {
+		case fd.IsList():
+			l := c.Mutable(fd).List()
+			for i := 0; i < v.List().Len(); i++ {
+				if fd.Kind() == protoreflect.MessageKind {
+					l.Append(protoreflect.ValueOfMessage(cloneMsg(v.List().Get(i).Message())))
+				} else {
+					l.Append(cloneScalar(fd, v.List().Get(i)))
+				}
+			}
+		case fd.IsMap():
+			mp := c.Mutable(fd).Map()
+			v.Map().Range(func(k protoreflect.MapKey, mv protoreflect.Value) bool {
+				if fd.MapValue().Kind() == protoreflect.MessageKind {
+					mp.Set(k, protoreflect.ValueOfMessage(cloneMsg(mv.Message())))
+				} else {
+					mp.Set(k, cloneScalar(fd.MapValue(), mv))
+				}
+				return true
+			})
+		case fd.Kind() == protoreflect.MessageKind:
+			c.Set(fd, protoreflect.ValueOfMessage(cloneMsg(v.Message())))
+		default:
+			c.Set(fd, cloneScalar(fd, v))
+		}
+		return true
+	})
+	return c
+}
+
+func cloneScalar(fd protoreflect.FieldDescriptor, v protoreflect.Value) protoreflect.Value {
+	if fd.Kind() == protoreflect.BytesKind {
+		return protoreflect.ValueOfBytes(append([]byte{}, v.Bytes()...))
+	}
+	return v
+}
+
+func canonAny(m protoreflect.Message) {
+	if m.Descriptor().FullName() == "j5.types.any.v1.Any" {
+		f := m.Descriptor().Fields().ByName("j5_json")
+		if m.Has(f) {
+			m.Set(f, protoreflect.ValueOfBytes(canonPrint(m.Get(f).Bytes())))
+		}
+		return
+	}
+	m.Range(func(fd protoreflect.FieldDescriptor, v protoreflect.Value) bool {
+		switch {
+		case fd.IsList():
+			if fd.Kind() == protoreflect.MessageKind {
+				for i := 0; i < v.List().Len(); i++ {
+					canonAny(v.List().Get(i).Message())
+				}
+			}
+		case fd.IsMap():
+			if fd.MapValue().Kind() == protoreflect.MessageKind {
+				v.Map().Range(func(_ protoreflect.MapKey, mv protoreflect.Value) bool { canonAny(mv.Message()); return true })
+			}
+		default:
+			if fd.Kind() == protoreflect.MessageKind {
+				canonAny(v.Message())
+			}
+		}
+		return true
+	})
+}
+
+// literalTables: what strconv.ParseFloat(s, 64) and time.Parse(time.RFC3339, s) answer for every
+// number and string literal of a document (the model takes both functions as parameters).
+func literalTables(doc []byte) (string, string) {
+	root, err := parseStrict(doc)
+	if err != nil {
+		return "[]", "[]"
+	}
+	seenF := map[string]bool{}
+	seenT := map[string]bool{}
+	var fs, ts []string
+	var walk func(n *jnode)
+	add := func(s string) {
+		if len(s) > 64 {
+			return
+		}
+		if !seenF[s] {
+			seenF[s] = true
+			opt := func(f float64, err error, is32 bool) string {
+				if err != nil {
+					return "None"
+				}
+				if is32 {
+					return fmt.Sprintf("(Some %d)", math.Float32bits(float32(f)))
+				}
+				return fmt.Sprintf("(Some %d)", math.Float64bits(f))
+			}
+			f64, e64 := strconv.ParseFloat(s, 64)
+			f32, e32 := strconv.ParseFloat(s, 32)
+			if e64 == nil || e32 == nil {
+				fs = append(fs, fmt.Sprintf("(%s, (%s, %s))", codecgen.BytesTerm(s), opt(f64, e64, false), opt(f32, e32, true)))
+			}
+		}
+		if !seenT[s] {
+			seenT[s] = true
+			if tm, err := time.Parse(time.RFC3339, s); err == nil {
+				ts = append(ts, fmt.Sprintf("(%s, ((%d)%%Z, (%d)%%Z))", codecgen.BytesTerm(s), tm.Unix(), tm.Nanosecond()))
+			}
+		}
+	}
+	walk = func(n *jnode) {
+		switch n.kind {
+		case 'N', 's':
+			add(n.s)
+		case 'a':
+			for _, it := range n.items {
+				walk(it)
+			}
+		case 'o':
+			for _, v := range n.vals {
+				walk(v)
+			}
+		}
+	}
+	walk(root)
+	return "[" + strings.Join(fs, "; ") + "]", "[" + strings.Join(ts, "; ") + "]"
+}
+
+// canonPrint re-prints a JSON text the way the model's printer does (JsonPrint.print: no white
+// space, escapes as appendString writes them, number literals as written); a text the strict
+// reader rejects is returned unchanged.
+func canonPrint(doc []byte) []byte {
+	n, err := parseStrict(doc)
+	if err != nil {
+		return doc
+	}
+	var out []byte
+	printNode(&out, n)
+	return out
+}
+
+func printStr(out *[]byte, s string) {
+	*out = append(*out, '"')
+	for i := 0; i < len(s); i++ {
+		c := s[i]
+		switch {
+		case c == '"':
+			*out = append(*out, '\\', '"')
+		case c == '\\':
+			*out = append(*out, '\\', '\\')
+		case c == '\b':
+			*out = append(*out, '\\', 'b')
+		case c == '\f':
+			*out = append(*out, '\\', 'f')
+		case c == '\n':
+			*out = append(*out, '\\', 'n')
+		case c == '\r':
+			*out = append(*out, '\\', 'r')
+		case c == '\t':
+			*out = append(*out, '\\', 't')
+		case c < 0x20:
+			*out = append(*out, []byte(fmt.Sprintf("\\u%04x", c))...)
+		default:
+			*out = append(*out, c)
+		}
+	}
+	*out = append(*out, '"')
+}
+
+func printNode(out *[]byte, n *jnode) {
+	switch n.kind {
+	case 'n':
+		*out = append(*out, "null"...)
+	case 'b':
+		if n.b {
+			*out = append(*out, "true"...)
+		} else {
+			*out = append(*out, "false"...)
+		}
+	case 'N':
+		*out = append(*out, n.s...)
+	case 's':
+		printStr(out, n.s)
+	case 'a':
+		*out = append(*out, '[')
+		for i, it := range n.items {
+			if i > 0 {
+				*out = append(*out, ',')
+			}
+			printNode(out, it)
+		}
+		*out = append(*out, ']')
+	case 'o':
+		*out = append(*out, '{')
+		for i, k := range n.keys {
+			if i > 0 {
+				*out = append(*out, ',')
+			}
+			printStr(out, k)
+			*out = append(*out, ':')
+			printNode(out, n.vals[i])
+		}
+		*out = append(*out, '}')
+	}
 }
